@@ -832,12 +832,18 @@ fn hold_mvalues<K: Key + 'static, V: Key + 'static>(
     let def: MultimapTableDefinition<K, V> = MultimapTableDefinition::new(n);
     let t = rt.open_multimap_table(def)?;
     let kbuf = cx.key_bytes(kt, op["k"].as_u64().unwrap() as u32);
-    if owned {
+    // (with the experimental API the borrowed form is tied to the table handle: the held form is the owned one)
+    if owned || cfg!(feature = "cursor") {
         let it = t.get_owned(K::from_bytes(&kbuf))?;
         Ok(Box::new(HeldMValues::<V, _> { it, vt: vt.to_string(), _p: std::marker::PhantomData }))
     } else {
-        let it = t.get(K::from_bytes(&kbuf))?;
-        Ok(Box::new(HeldMValues::<V, _> { it, vt: vt.to_string(), _p: std::marker::PhantomData }))
+        #[cfg(not(feature = "cursor"))]
+        {
+            let it = t.get(K::from_bytes(&kbuf))?;
+            Ok(Box::new(HeldMValues::<V, _> { it, vt: vt.to_string(), _p: std::marker::PhantomData }))
+        }
+        #[cfg(feature = "cursor")]
+        unreachable!()
     }
 }
 
